@@ -464,6 +464,10 @@ class FnAnalysis:
         names = list(vs)
         while True:
             if x.op == "agg" and x.args[0] == "adt":
+                # statically known: answer with the index in the *caller's* variant list (wrappers such as ok_or change the type,
+                # and with it the numbering: None is 0 in Option but corresponds to Err = 1 of the Result it was turned into)
+                if x.args[3] in names:
+                    return None, names.index(x.args[3])
                 return None, x.args[2]
             if x.op == "call":
                 f, g, a = x.args
